@@ -60,13 +60,17 @@ for _pid, _text, _also in [
             "in-place occurrence, nothing beyond the source length; full write traces compared with the implementation.", []),
 ]:
     PROPS[_pid] = {
-        "theorems": {"C02": ["C02_clone_with_seeds", "C02_seeds_irrelevant"],
-                     "C03": ["C03_planner_executor_correct", "C03_inplace_exact"],
+        "theorems": {"C02": ["C02_clone_with_seeds", "C02_seeds_irrelevant", "C02_hash_keyed_index_refines_add",
+                             "C02_hash_keyed_index_refines_remove", "C02_hash_keyed_index_refines_contains",
+                             "C02_lookup_truncates_consistently"],
+                     "C03": ["C03_planner_executor_correct", "C03_inplace_exact", "C03_explicit_stack_planner_is_recursive_planner"],
                      "C05": ["C05_failed_write_not_ok", "C05_rerun_completes", "C05_output_file_reports_failed_write",
                              "C05_unflushed_would_lose_last_error"],
                      "C06": ["C06_fetch_exact", "C06_archive_fetch_exact"],
                      "C13": ["C13_write_trace_spec"]}[_pid],
-        "suites": ["planner", "clone"] + (["cliclone"] if _pid in ("C02", "C03", "C06") else []) + (["clifault"] if _pid == "C05" else []),
+        "suites": ["planner", "clone"] + (["cliclone"] if _pid in ("C02", "C03", "C06") else []) + (["clifault"] if _pid == "C05" else [])
+                  + (["hashkey"] if _pid == "C02" else []),
+        "extra_case_files": {"planner": ["planner-iter"]},
         "needs_cli": _pid in ("C02", "C03", "C06", "C05"), "also": _also, "rule": _CLONE_RULE, "assumes": _CLONE_ASSUMES,
         "trusted_base": [], "level_text": _text, "level_note": _CLONE_NOTE,
     }
